@@ -735,6 +735,58 @@ def check_delivery(w, q):
                 w.stats["c01_calm_points_checked"] += 1
                 if done:
                     break
+        # ---- C08 at calm points: a resumed connection that is drained, owes nothing, with the router
+        # idle since, has received (A) everything accepted while the client was away and (B) again
+        # every QoS>0 forward its previous connection had received and not acknowledged
+        if l.resumed and not l.notes and not getattr(l, "unresolved_fwd", 0) and getattr(l, "foreign_end", None) is None \
+                and getattr(l, "calm_pairs", None) and getattr(l, "prev", None) is not None:
+            prevl = l.prev
+            rsubs = [(p_, q_) for (p_, q_, _s) in getattr(l, "resumed_subs", [])]
+            if prevl.notes or getattr(prevl, "unresolved_fwd", 0) or any(strip_share(p_)[0] is not None for (p_, _q) in rsubs):
+                w.skips["c08-calm-skipped"] += 1
+            else:
+                import bisect
+                acc_ops = [a[6] for a in w.accepted]
+                (d, _i0) = l.calm_pairs[-1]
+                nb = bisect.bisect_left(acc_ops, d)
+                gone = set(pp for (pp, _at, uop) in getattr(l, "unsubbed_ops", []) if uop < d)
+                got_by = set((f["topic_resolved"], f["payload"]) for f in l.fwd if f["at"] <= d)
+                away_from = getattr(prevl, "ended_n", None)
+                bad = None
+                # when did each subscription of the session take effect (acceptance counter)?
+                chain_, c_ = [], l
+                while c_ is not None:
+                    chain_.append(c_)
+                    c_ = getattr(c_, "prev", None) if c_.resumed else None
+                since_of = {}
+                for x_ in reversed(chain_):
+                    for (p_, _qq, s_, _pi) in getattr(x_, "new_subs", []):
+                        since_of[p_] = s_
+                    for (p_, _a) in getattr(x_, "unsubbed", []):
+                        since_of.pop(p_, None)
+                for (path, qos) in rsubs:
+                    if path in gone or bad or path not in since_of:
+                        continue
+                    if away_from is not None:
+                        for (n, topic, payload, _r, _pub, _q, _i) in w.accepted[away_from:nb]:
+                            if payload != b"" and topic_matches(topic, path) and (topic, payload) not in got_by and still_retained(w, path, n, nb):
+                                bad = "(%r, %r), accepted while the client was away, never arrived" % (topic, payload)
+                                break
+                    if bad or qos == 0:
+                        continue
+                    for f in prevl.fwd:
+                        if f["qos"] > 0 and not f.get("acked") and f["cursor"] != "-" and f["payload"] != b"" and f["topic_resolved"] is not None \
+                                and topic_matches(f["topic_resolved"], path) and (f["topic_resolved"], f["payload"]) not in got_by:
+                            ns = [a[0] for a in w.accepted if a[1] == f["topic_resolved"] and a[2] == f["payload"] and a[0] >= since_of[path]]
+                            # the unacknowledged copy may stem from ANY of the session's subscriptions that match
+                            # the topic (cursor tags do not name the log): every such log must still hold it
+                            others = [p2 for (p2, _q2) in rsubs if p2 in since_of and topic_matches(f["topic_resolved"], p2)]
+                            if ns and all(still_retained(w, p2, ns[0], nb) and ns[0] >= since_of[p2] for p2 in others):
+                                bad = "(%r, %r), forwarded to the previous connection (link %d) and never acknowledged, was not sent again" % (f["topic_resolved"], f["payload"], prevl.k)
+                                break
+                if bad:
+                    w.viol(d, "C08", "resumed link %d (%r) drained at op %d, owed nothing, the router idle since: %s" % (l.k, l.name, d, bad))
+                w.stats["c08_calm_points_checked"] += 1
         if unreliable:
             w.skips["delivery-exactness-skipped-link"] += 1
             # persistent / resumed links: redeliveries make the upper bounds and the order clause
